@@ -243,6 +243,42 @@ def gen_bellerophon(out):
     return obligations
 
 
+def gen_thresholds(out):
+    """Arithmetic facts the range-end and capacity arguments rest on (no data from /repo:
+    pure number theory, decided by computation)."""
+    obs = []
+
+    def add(name, expr, text):
+        out.append("proof fn %s() { assert(%s) by (compute_only); }\n" % (name, expr))
+        obs.append((name, text))
+    # early-outs of the moderate stages
+    add("thr_f64_underflow", "(pw(2, 64) - 1) * pw(2, 1075) < pw(10, 343)", "(2^64-1) * 10^-343 < 2^-1075: every significand with q < -342 is below half the smallest f64 subnormal")
+    add("thr_f64_no_early_underflow", "pw(10, 342) < (pw(2, 64) - 1) * pw(2, 1075)", "q = -342 can still be non-zero (the f64 limit is tight)")
+    add("thr_f64_overflow", "pw(10, 309) > pw(2, 1024)", "10^309 > 2^1024: every non-zero significand with q > 308 overflows f64")
+    add("thr_f64_no_early_overflow", "pw(10, 308) < pw(2, 1024) - pw(2, 970)", "1 * 10^308 is finite (the f64 limit is tight)")
+    add("thr_f32_underflow", "(pw(2, 64) - 1) * pw(2, 150) < pw(10, 66)", "(2^64-1) * 10^-66 < 2^-150: q < -65 underflows f32")
+    add("thr_f32_overflow", "pw(10, 39) > pw(2, 128)", "10^39 > 2^128: q > 38 overflows f32")
+    add("thr_bell_underflow", "(pw(2, 64) - 1) * pw(2, 1075) < pw(10, 351)", "Bellerophon: exponent + 350 < 0 underflows both formats")
+    add("thr_bell_overflow", "pw(10, 310) > pw(2, 1024)", "Bellerophon: large index >= 66 (q >= 310) overflows both formats")
+    add("thr_bell_no_early_out_f64", "pw(10, 280) * 1 < pw(2, 1074) && pw(2, 1024) - pw(2, 970) > pw(10, 308)", "10^-280 > 2^-1074: for q >= -280 every w >= 1 is at least the smallest f64 subnormal; 10^308 finite")
+    add("thr_bell_no_early_out_f32", "pw(10, 30) < pw(2, 149)", "10^-30 > 2^-149: for q >= -30 every w >= 1 is at least the smallest f32 subnormal")
+    # tie window
+    add("thr_tie_f64", "pw(5, 23) < pw(2, 54) && pw(5, 24) > pw(2, 54) && pw(2, 53) * pw(5, 4) < pw(2, 64) && pw(2, 53) * pw(5, 5) > pw(2, 64)", "f64 tie window [-4, 23]: 5^23 < 2^54 < 5^24 ; 2^53 * 5^4 < 2^64 < 2^53 * 5^5")
+    add("thr_tie_f32", "pw(5, 10) < pw(2, 25) && pw(5, 11) > pw(2, 25) && pw(2, 24) * pw(5, 17) < pw(2, 64) && pw(2, 24) * pw(5, 18) > pw(2, 64)", "f32 tie window [-17, 10]: 5^10 < 2^25 < 5^11 ; 2^24 * 5^17 < 2^64 < 2^24 * 5^18")
+    add("thr_exact_q27", "pw(5, 27) < pw(2, 64) && pw(5, 28) > pw(2, 64)", "5^q < 2^64 exactly for q <= 27 (products exact)")
+    add("thr_fast_path_f64", "pw(10, 22) < pw(2, 53) * pw(2, 22) && pw(5, 22) < pw(2, 53) && pw(5, 23) > pw(2, 53) && pw(10, 15) < pw(2, 53) && pw(10, 16) > pw(2, 53)", "f64 fast path: 5^22 < 2^53 < 5^23 (10^22 exact in f64); 10^15 < 2^53 < 10^16 (disguised shift 37 - 22)")
+    add("thr_fast_path_f32", "pw(5, 10) < pw(2, 24) && pw(5, 11) > pw(2, 24) && pw(10, 7) < pw(2, 24) && pw(10, 8) > pw(2, 24)", "f32 fast path: 5^10 < 2^24 < 5^11; 10^7 < 2^24 < 10^8 (disguised shift 17 - 10)")
+    # longest exact halfway expansions: MAX_DIGITS - 1
+    add("thr_max_digits_f64", "pw(10, 767) <= (pw(2, 54) - 1) * pw(5, 1075) && (pw(2, 54) - 1) * pw(5, 1075) < pw(10, 768)", "the longest exact f64 halfway expansion (2^54-1) * 2^-1075 has 768 significant digits = MAX_DIGITS - 1")
+    add("thr_max_digits_f32", "pw(10, 112) <= (pw(2, 25) - 1) * pw(5, 150) && (pw(2, 25) - 1) * pw(5, 150) < pw(10, 113)", "the longest exact f32 halfway expansion (2^25-1) * 2^-150 has 113 significant digits = MAX_DIGITS - 1")
+    # capacity (L-CAP): 62 limbs = 3968 bits
+    add("thr_cap_positive", "pw(2, 64) * pw(10, 308) * 10 < pw(2, 3968)", "positive scale: digits * 10^e < 2^64 * 10^309 fits 62 limbs")
+    add("thr_cap_digits", "pw(10, 770) < pw(2, 2558) && pw(2, 2558) * pw(2, 1100) < pw(2, 3968)", "770 digits < 2^2558; shifted by up to 1100 bits still < 2^3968")
+    add("thr_cap_theor", "pw(2, 54) * pw(5, 1131) < pw(2, 2681) && pw(2, 2681) * pw(2, 1100) < pw(2, 3968)", "(2m+1) * 5^1131 < 2^2681; scaled by up to 2^1100 still < 2^3968")
+    add("thr_capacity_limbs", "62int * 64 == 3968 && 4000int / 64 == 62", "BIGINT_LIMBS = 4000 / 64 = 62 limbs = 3968 bits")
+    return obs
+
+
 def generate(path, which=("lemire", "small", "bellerophon", "log2")):
     out = [PRELUDE]
     obs = []
@@ -254,6 +290,8 @@ def generate(path, which=("lemire", "small", "bellerophon", "log2")):
         obs += gen_bellerophon(out)
     if "log2" in which:
         obs += gen_log2(out)
+    if "thresholds" in which:
+        obs += gen_thresholds(out)
     out.append("} // verus!\nfn main() {}\n")
     with open(path, "w") as f:
         f.write("".join(out))
